@@ -352,6 +352,22 @@ func shortDigest(s string) string {
 
 var lastFileLists []*filterlist.FileRuleList
 
+// wrapHistList, when set, wraps every list makeHistStorage builds (drive-fault: a list whose retrievals fail for a while)
+var wrapHistList func(filterlist.RuleList) filterlist.RuleList
+
+// flakyList fails every retrieval while *failing is set; scanning is never affected.
+type flakyList struct {
+	filterlist.RuleList
+	failing *atomic.Bool
+}
+
+func (f *flakyList) RetrieveRule(idx int) (rules.Rule, error) {
+	if f.failing.Load() {
+		return nil, fmt.Errorf("transient read error")
+	}
+	return f.RuleList.RetrieveRule(idx)
+}
+
 func makeHistStorage(rnd *rand.Rand, lines []string, dir string, forceFile bool) (*filterlist.RuleStorage, func(), error) {
 	lastFileLists = nil
 	cut := rnd.Intn(len(lines) + 1)
@@ -377,6 +393,11 @@ func makeHistStorage(rnd *rand.Rand, lines []string, dir string, forceFile bool)
 			lastFileLists = append(lastFileLists, fl)
 		} else {
 			ls = append(ls, &filterlist.StringRuleList{ID: i + 1, RulesText: text})
+		}
+	}
+	if wrapHistList != nil {
+		for i := range ls {
+			ls[i] = wrapHistList(ls[i])
 		}
 	}
 	st, err := filterlist.NewRuleStorage(ls)
@@ -418,8 +439,20 @@ func cmdDriveHistory(args []string) error {
 				lines = append(lines, "@@||"+rwOnlyHost+"^$dnsrewrite"+v)
 			}
 		}
+		// rules that tie in priority and are filed under their $domain (no usable shortcut): which of them is reported
+		// first must not change from call to call
+		lines = append(lines, "*$domain=example.org,image", "*$domain=sub.example.org,image", "/q$domain=example.org|sub.example.org,image",
+			"*$domain=sub.example.org|example.org,image")
 		hr.Shuffle(len(lines), func(i, j int) { lines[i], lines[j] = lines[j], lines[i] })
+		// every 3rd history: the lists of the long-lived engines have a spell of failing retrievals (queries asked during
+		// the spell are not part of the history: an I/O error is the environment's doing); afterwards every answer has to
+		// be the fresh engine's again
+		failing := &atomic.Bool{}
+		if hnum%3 == 1 {
+			wrapHistList = func(l filterlist.RuleList) filterlist.RuleList { return &flakyList{RuleList: l, failing: failing} }
+		}
 		st, cleanup, err := makeHistStorage(hr, lines, m["dir"], false)
+		wrapHistList = nil
 		if err != nil {
 			return err
 		}
@@ -449,7 +482,18 @@ func cmdDriveHistory(args []string) error {
 				}
 			}
 		}
+		pool[0] = &histQuery{kind: "web", host: "tracker.test", url: "http://tracker.test/q/banner.png", src: "https://sub.example.org/", typ: rules.TypeImage}
+		pool[1] = &histQuery{kind: "net", host: "tracker.test", url: "http://tracker.test/q/banner.png", src: "https://sub.example.org/news/", typ: rules.TypeImage}
 		for i := 0; i < hl; i++ {
+			if hnum%3 == 1 && i == hl/5 {
+				failing.Store(true)
+				for k := 0; k < len(histHosts); k++ {
+					_, _, _, _ = eng.run(&histQuery{kind: "dnsmatch", host: histHosts[k]})
+					_, _, _, _ = eng.run(&histQuery{kind: "net", host: histHosts[k], url: "https://" + histHosts[k] + "/ads/banner.js", typ: rules.TypeScript})
+				}
+				_, _, _, _ = eng.run(pool[0])
+				failing.Store(false)
+			}
 			var q *histQuery
 			if i < len(inOrder) && i < hl/4 {
 				q = inOrder[i]
@@ -599,13 +643,27 @@ func cmdDriveFault(args []string) error {
 			}
 		}
 		// every 4th history: one query is in flight across the fault (see below); its rules are asked for nowhere else
-		gated := hnum%4 == 1 && !bulk
+		gated := (hnum%4 == 1 || hnum%4 == 3) && !bulk
+		// hnum%4 == 3: the in-flight query is held between the Seek and the Read of its file retrieval instead (it holds
+		// the list's lock there, so no second query is asked meanwhile): the read then fails on a closed file
+		parkAt := "cache-miss"
+		if hnum%4 == 3 {
+			parkAt = "file-read"
+		}
 		gatedHost := fmt.Sprintf("gated%d.example", hnum)
 		if gated {
 			lines = append(lines, "||"+gatedHost+"^", "0.0.0.0 "+gatedHost)
 		}
 		ls := hr.Int63()
+		// every 8th history: the fault is transient - retrievals fail for a while and then work again; nothing that
+		// happened in between may stick
+		transient := hnum%8 == 2 && !gated
+		failing := &atomic.Bool{}
+		if transient {
+			wrapHistList = func(l filterlist.RuleList) filterlist.RuleList { return &flakyList{RuleList: l, failing: failing} }
+		}
 		st, cleanup, err := makeHistStorage(rand.New(rand.NewSource(ls)), lines, m["dir"], true)
+		wrapHistList = nil
 		if err != nil {
 			return err
 		}
@@ -636,6 +694,12 @@ func cmdDriveFault(args []string) error {
 		if gated {
 			kind = "close"
 		}
+		recoverAt := -1
+		if transient {
+			kind = "transient"
+			faultAt = hr.Intn(hl/2 + 1)
+			recoverAt = faultAt + 3 + hr.Intn(12)
+		}
 		hung := false
 		for i := 0; i < total && !hung; i++ {
 			if i == faultAt && gated {
@@ -646,7 +710,7 @@ func cmdDriveFault(args []string) error {
 				var armed int32 = 1
 				parked, release, finished := make(chan struct{}), make(chan struct{}), make(chan string, 1)
 				setYield(func(p string) {
-					if p == "cache-miss" && atomic.CompareAndSwapInt32(&armed, 1, 0) {
+					if p == parkAt && atomic.CompareAndSwapInt32(&armed, 1, 0) {
 						close(parked)
 						<-release
 					}
@@ -660,13 +724,17 @@ func cmdDriveFault(args []string) error {
 				case <-time.After(5 * time.Second):
 					atomic.StoreInt32(&armed, 0)
 				}
-				_, _, g, gn, p := eng.run2(q0)
-				if p != "" {
-					g = []string{"PANIC"}
-				}
+				var g, gn []string
+				var p string
 				_, _, tw, twn, _ := twin.run2(q0)
-				out.write(map[string]any{"ev": "query", "q": q0.key(), "got": nz(g), "gotnet": nz(gn), "twin": nz(tw), "twinnet": nz(twn),
-					"ref": nz(trulyMatching(parsed, q0)), "kind": p, "h": hnum})
+				if parkAt == "cache-miss" {
+					_, _, g, gn, p = eng.run2(q0)
+					if p != "" {
+						g = []string{"PANIC"}
+					}
+					out.write(map[string]any{"ev": "query", "q": q0.key(), "got": nz(g), "gotnet": nz(gn), "twin": nz(tw), "twinnet": nz(twn),
+						"ref": nz(trulyMatching(parsed, q0)), "kind": p, "h": hnum})
+				}
 				_ = st.Close()
 				out.write(map[string]any{"ev": "fault", "q": "", "got": []string{}, "gotnet": []string{}, "twin": []string{}, "twinnet": []string{}, "ref": []string{}, "kind": "close with a query in flight", "h": hnum})
 				close(release)
@@ -680,6 +748,9 @@ func cmdDriveFault(args []string) error {
 					out.write(map[string]any{"ev": "query", "q": q0.key(), "got": []string{"PANIC"}, "gotnet": []string{}, "twin": nz(tw), "twinnet": nz(twn),
 						"ref": nz(trulyMatching(parsed, q0)), "kind": p, "h": hnum})
 				}
+				if hung {
+					break // the stuck query may hold a lock of the list: nothing more can be asked of this engine
+				}
 				_, _, g, gn, p = eng.run2(q0)
 				if p != "" {
 					g = []string{"PANIC"}
@@ -687,6 +758,9 @@ func cmdDriveFault(args []string) error {
 				out.write(map[string]any{"ev": "query", "q": q0.key(), "got": nz(g), "gotnet": nz(gn), "twin": nz(tw), "twinnet": nz(twn),
 					"ref": nz(trulyMatching(parsed, q0)), "kind": p, "h": hnum})
 				gatedRuns++
+			} else if i == faultAt && transient {
+				failing.Store(true)
+				out.write(map[string]any{"ev": "fault", "q": "", "got": []string{}, "gotnet": []string{}, "twin": []string{}, "twinnet": []string{}, "ref": []string{}, "kind": "transient", "h": hnum})
 			} else if i == faultAt {
 				pv := safeCall(func() {
 					if kind == "close" {
@@ -706,6 +780,10 @@ func cmdDriveFault(args []string) error {
 					}
 				})
 				out.write(map[string]any{"ev": "fault", "q": "", "got": []string{}, "gotnet": []string{}, "twin": []string{}, "twinnet": []string{}, "ref": []string{}, "kind": kind + pv, "h": hnum})
+			}
+			if transient && i == recoverAt {
+				failing.Store(false)
+				out.write(map[string]any{"ev": "recover", "q": "", "got": []string{}, "gotnet": []string{}, "twin": []string{}, "twinnet": []string{}, "ref": []string{}, "kind": "transient", "h": hnum})
 			}
 			var q *histQuery
 			if bulk {
